@@ -628,7 +628,8 @@ func unop(fr *frame, instr *ssa.UnOp, x Val) Val {
 	checkPoison(x)
 	switch instr.Op {
 	case token.ARROW:
-		v, ok := chanRecv(fr, asChan17(x), instr.X.Type().Underlying().(*types.Chan).Elem())
+		ch := x.(*Chan)
+		v, ok := chanRecv(fr, ch, instr.X.Type().Underlying().(*types.Chan).Elem())
 		if instr.CommaOk {
 			return Tuple{v, ok}
 		}
@@ -1708,7 +1709,7 @@ func callBuiltin(caller *frame, pos token.Pos, fn *ssa.Builtin, args []Val) Val 
 			if x == nil {
 				return int64(0)
 			}
-			return int64(chanLen17(x))
+			return int64(len(x.buf))
 		}
 		panic(fmt.Sprintf("len: illegal operand: %T", args[0]))
 	case "cap":
